@@ -139,6 +139,8 @@ impl MappedAddr for EndpointIdMappedAddr {
         addr[1..6].copy_from_slice(&ADDR_GLOBAL_ID);
         addr[6..8].copy_from_slice(&ENDPOINT_ID_SUBNET);
         rand::rng().fill_bytes(&mut addr[8..16]);
+        #[cfg(iroh_verif)]
+        iroh_base::verif::rand_override("mapped_addr", &mut addr[8..16]);
 
         Self(Ipv6Addr::from(addr))
     }
@@ -200,6 +202,8 @@ impl MappedAddr for RelayMappedAddr {
         addr[1..6].copy_from_slice(&ADDR_GLOBAL_ID);
         addr[6..8].copy_from_slice(&RELAY_MAPPED_SUBNET);
         rand::rng().fill_bytes(&mut addr[8..16]);
+        #[cfg(iroh_verif)]
+        iroh_base::verif::rand_override("mapped_addr", &mut addr[8..16]);
 
         Self(Ipv6Addr::from(addr))
     }
@@ -260,6 +264,8 @@ impl MappedAddr for CustomMappedAddr {
         addr[1..6].copy_from_slice(&ADDR_GLOBAL_ID);
         addr[6..8].copy_from_slice(&CUSTOM_MAPPED_SUBNET);
         rand::rng().fill_bytes(&mut addr[8..16]);
+        #[cfg(iroh_verif)]
+        iroh_base::verif::rand_override("mapped_addr", &mut addr[8..16]);
 
         Self(Ipv6Addr::from(addr))
     }
@@ -315,7 +321,10 @@ impl std::fmt::Display for CustomMappedAddr {
 /// A bi-directional map between a key and a [`MappedAddr`].
 #[derive(Debug, Clone)]
 pub(super) struct AddrMap<K, V> {
+    #[cfg(not(iroh_verif))]
     inner: Arc<std::sync::Mutex<AddrMapInner<K, V>>>,
+    #[cfg(iroh_verif)]
+    inner: Arc<iroh_base::verif::sync::Mutex<AddrMapInner<K, V>>>,
 }
 
 // Manual impl because derive ends up requiring T: Default.
@@ -371,6 +380,86 @@ impl<K, V> Default for AddrMapInner<K, V> {
         Self {
             addrs: Default::default(),
             lookup: Default::default(),
+        }
+    }
+}
+
+/// Verification wrappers (cfg(iroh_verif) only).
+#[cfg(iroh_verif)]
+pub(crate) mod verif {
+    use std::net::SocketAddr;
+
+    use iroh_base::{CustomAddr, EndpointId, RelayUrl};
+
+    use super::{
+        AddrMap, CustomMappedAddr, EndpointIdMappedAddr, MappedAddr, MultipathMappedAddr,
+        RelayMappedAddr,
+    };
+
+    /// The three address maps of an endpoint, as used by the socket.
+    #[derive(Debug, Clone, Default)]
+    pub struct AddrMaps {
+        ep: AddrMap<EndpointId, EndpointIdMappedAddr>,
+        relay: AddrMap<(RelayUrl, EndpointId), RelayMappedAddr>,
+        custom: AddrMap<CustomAddr, CustomMappedAddr>,
+    }
+
+    /// Kind a socket address is classified as.
+    #[derive(Debug, Clone, Copy, PartialEq, Eq)]
+    pub enum Kind {
+        /// per-endpoint mapped address
+        Mixed,
+        /// relay mapped address
+        Relay,
+        /// custom transport mapped address
+        Custom,
+        /// ordinary IP address
+        Ip,
+    }
+
+    /// Classifies a socket address the way the socket does.
+    pub fn classify(addr: SocketAddr) -> Kind {
+        match MultipathMappedAddr::from(addr) {
+            MultipathMappedAddr::Mixed(_) => Kind::Mixed,
+            MultipathMappedAddr::Relay(_) => Kind::Relay,
+            MultipathMappedAddr::Custom(_) => Kind::Custom,
+            MultipathMappedAddr::Ip(_) => Kind::Ip,
+        }
+    }
+
+    impl AddrMaps {
+        /// `AddrMap::get` on the endpoint map.
+        pub fn get_ep(&self, k: &EndpointId) -> SocketAddr {
+            self.ep.get(k).private_socket_addr()
+        }
+        /// `AddrMap::lookup` on the endpoint map.
+        pub fn lookup_ep(&self, a: SocketAddr) -> Option<EndpointId> {
+            match MultipathMappedAddr::from(a) {
+                MultipathMappedAddr::Mixed(m) => self.ep.lookup(&m),
+                _ => None,
+            }
+        }
+        /// `AddrMap::get` on the relay map.
+        pub fn get_relay(&self, k: &(RelayUrl, EndpointId)) -> SocketAddr {
+            self.relay.get(k).private_socket_addr()
+        }
+        /// `AddrMap::lookup` on the relay map.
+        pub fn lookup_relay(&self, a: SocketAddr) -> Option<(RelayUrl, EndpointId)> {
+            match MultipathMappedAddr::from(a) {
+                MultipathMappedAddr::Relay(m) => self.relay.lookup(&m),
+                _ => None,
+            }
+        }
+        /// `AddrMap::get` on the custom map.
+        pub fn get_custom(&self, k: &CustomAddr) -> SocketAddr {
+            self.custom.get(k).private_socket_addr()
+        }
+        /// `AddrMap::lookup` on the custom map.
+        pub fn lookup_custom(&self, a: SocketAddr) -> Option<CustomAddr> {
+            match MultipathMappedAddr::from(a) {
+                MultipathMappedAddr::Custom(m) => self.custom.lookup(&m),
+                _ => None,
+            }
         }
     }
 }
